@@ -96,11 +96,13 @@ class Quantity(DimensionSymbol, SymQuantity):  # type: ignore[misc]  # pylint: d
 # Allows for some SymPy comparisons, eg Piecewise function
 @dispatch(Quantity, Quantity)  # type: ignore[misc]
 def _eval_is_ge(lhs: Quantity, rhs: Quantity) -> Optional[bool]:
-    # quantities of inequivalent dimensions are not comparable: leave the relation undecided
-    # (zero and infinite values are compatible with any dimension)
+    # quantities of inequivalent dimensions are not comparable (zero and infinite values are
+    # compatible with any dimension).
+    # NOTE: leaving the relation undecided is not enough, SymPy then falls back to the signs of the
+    # quantities, eg Max(1 m, -3 s) evaluates to 1 m
     if not (is_any_dimension(lhs.scale_factor) or is_any_dimension(rhs.scale_factor) or
             SI.get_dimension_system().equivalent_dims(lhs.dimension, rhs.dimension)):
-        return None
+        raise ValueError(f"Dimension of '{rhs}' is {rhs.dimension}, but it should be {lhs.dimension}")
     return scale_factor(lhs) >= scale_factor(rhs)
 
 
